@@ -30,7 +30,12 @@ CFG = dict(
          "truncated items, absent) put into a REAL signed enr.Record, sent through its wire encoding (rlp decode + signature check + enode.New as discv5 does), "
          "read by records.GetDomainTypeEntry / GetSubnetsEntry (outcome diffed against the Lean model of the decoders) and then run through the real "
          "discovery code for a discovered node (ToPeer, badNodeFilter, subnetFilter, sharedSubnetsFilter, checkPeer via shim) under the no-panic oracle; fuzz "
-         "target enr-record (mutated wire bytes of whole records); resource stratum: ONE validator receives a stream (120 quick / 3000 thorough) of messages for ids the "
+         "target enr-record (mutated wire bytes of whole records); full pubsub wrapper: the REAL ValidatePubsubMessage (wall clock, real metrics reporter, debug-level JSON logger, right topic) for QBFT / "
+         "partial-signature / SSV message type values 0..8, 255, 256, 2^31, 2^32, 2^63, 2^64-1 x roles incl. invalid x {current slot, expired slot} x {unsigned, signed "
+         "envelope}, so that Descriptor.Fields()/log/metric labels run on attacker-chosen values; operators 101..107 registered with non-RSA / garbage / empty keys "
+         "(ECDSA and Ed25519 PKIX PEM, bad DER, CERTIFICATE block, non-PEM, empty, non-base64) and envelopes naming them through validateSSVMessage, "
+         "validateP2PMessage and the wrapper; msg-id handler: real handler + Start loop + GC with a 150 ms ttl, oracle on its map through a shim (expired entries gone, "
+         "live ones kept, bounded by one ttl period of traffic); resource stratum: ONE validator receives a stream (120 quick / 3000 thorough) of messages for ids the "
          "node does not serve — distinct well-formed unregistered BLS keys x 7 roles with the right domain, liquidated / metadata-less / exited validators, foreign "
          "domain, invalid roles, malformed keys, every 8th through the pubsub entry point — and, on EVERY call of every case, an oracle on the validator's internals "
          "(shim: sizes of validationLocks and of the consensus-state index before/after): a call for an unserved id leaves no per-id state "
